@@ -38,8 +38,20 @@ Record txn := { t_date : Z; t_edate : option Z; t_code : option str; t_payee : s
                 t_rates : list (str * oamount);         (* HashMap target commodity -> rate *)
                 t_balance : option oamount; t_charges : list (str * oamount) }.
 
+(* one_line (the repair recorded as C15 in known_findings.json): line breaks become spaces and
+   the text is trimmed; str::trim on text whose white space is ASCII *)
+Definition is_ws (c : N) : bool := (c =? 32)%N || ((9 <=? c)%N && (c <=? 13)%N).
+Fixpoint trim_start (s : str) : str :=
+  match s with
+  | c :: r => if is_ws c then trim_start r else s
+  | [] => []
+  end.
+Definition trim (s : str) : str := rev (trim_start (rev (trim_start s))).
+Definition one_line (s : str) : str :=
+  trim (map (fun c => if (c =? 13)%N || (c =? 10)%N then 32%N else c) s).
+
 Definition txn_new (date : Z) (payee : str) (a : oamount) : txn :=
-  {| t_date := date; t_edate := None; t_code := None; t_payee := payee; t_comments := [];
+  {| t_date := date; t_edate := None; t_code := None; t_payee := one_line payee; t_comments := [];
      t_dest := None; t_clear := None; t_transferred := None; t_amount := a; t_rates := [];
      t_balance := None; t_charges := [] |}.
 
@@ -52,7 +64,7 @@ Fixpoint sget {V} (k : str) (m : list (str * V)) : option V :=
 (* what every importer does with the extracted Fragment: code_option, dest_account_option,
    clear_state(Pending) unless cleared *)
 Definition apply_fragment (f : frag) (t : txn) : txn :=
-  {| t_date := t_date t; t_edate := t_edate t; t_code := g_code f; t_payee := t_payee t;
+  {| t_date := t_date t; t_edate := t_edate t; t_code := option_map one_line (g_code f); t_payee := t_payee t;
      t_comments := t_comments t; t_dest := g_account f;
      t_clear := if g_cleared f then t_clear t else Some Pending;
      t_transferred := t_transferred t; t_amount := t_amount t; t_rates := t_rates t;
@@ -100,6 +112,10 @@ Definition dest_posting (t : txn) (dflt : str) : sposting :=
 Definition charge_posting (t : txn) (c : str * oamount) : sposting :=
   {| sp_account := expenses_commissions; sp_clear := Uncleared; sp_amount := snd c;
      sp_cost := posting_cost t (snd c); sp_balance := None; sp_payee := Some (fst c) |}.
+
+(* the posting on the other side of the configured account *)
+Definition counter_posting (t : txn) : sposting :=
+  dest_posting t (if d_neg (oa_value (t_amount t)) then expenses_unknown else income_unknown).
 
 (* Txn::to_double_entry; the sign *bit* decides (is_sign_positive / is_sign_negative are
    complementary, so the error branch of the source is unreachable) *)
